@@ -52,9 +52,9 @@ P = {
     "C13": ("proof", "Theorem: terminal enum variants and try_into_* methods carry the validated type string of that terminal (C13_use_sites). "
             "Partial: the typeToString/tokenize round trip is not a theorem; every use site in the emitted text (incl. fields, through get_type) is re-tokenised and compared with the declaration (types nested to depth 5, near-duplicate terminal names).",
             "§7 C13", "structure theorem + re-tokenisation of use sites"),
-    "C14": ("proof", "Theorem: collecting a hash set into an Oset gives the same vector for every iteration order (C14_ofList_perm, site 1 of 3). "
-            "Partial: sites 2–3 not yet theorems; generate is run 10× per text in fresh threads and in further processes (fresh RandomState) and compared byte for byte / structurally.",
-            "§7 C14", "permutation-invariance theorem + repeated runs across threads/processes"),
+    "C14": ("proof", "Theorems for both places where the crate iterates over a hash collection (all other HashMap/HashSet uses are get/contains/insert only): collecting the transition HashSet into an Oset gives the same vector for every iteration order (C14_ofList_perm); build_as_is returns the same table for every iteration order of TableBuilder's two maps, whose keys are proved distinct (C14_table_order_independent). Everything else in the model is a function of the input by construction. "
+            "generate is additionally run 10× per text in fresh threads and in further processes (fresh RandomState) and compared byte for byte / structurally.",
+            "§7 C14", "permutation-invariance theorems for both hash-iteration sites + repeated runs across threads/processes"),
     "C15": ("proof", "Full for the model: for all texts get_grammar_hash = remainder of the first `// @sha256 ` line inside the leading `//` block, else None (C15_spec); for every emitted module get_grammar_hash(render m) = the digest in the header (C15_roundtrip) and the build-script freshness test succeeds iff the digests are equal (C15_fresh). "
             "SHA-256 itself is a parameter: the real header is compared with hashlib on every generated output.",
             "§7 C15", "specification + round-trip theorems + hashlib"),
